@@ -18,8 +18,8 @@ IMPORTS = ["from Reduino.Actuators import DCMotor", "from Reduino.Communication 
            "from Reduino.Core import analog_read"]
 META_PART = ("C04_motor: device model of set_speed/backward/stop/coast/invert/ramp (20 steps)/run_for with the PWM rounding "
              "static_cast<int>(|x|*255+0.5f), direction pins and mode decided by the applied speed being non-zero (not by the PWM count), and "
-             "truncating delays; clamp clause proved for all values and histories; device = host proved for ALL commands and histories with speeds in "
-             "-1..1 of ANY magnitude and durations >= 0 (C04_motor_partial: firmware events = host level signal event by event with duty = nearest "
+             "truncating delays; clamp clause proved for all values and histories; device = host proved for ALL commands and histories with speeds of "
+             "ANY value (outside -1..1 both sides clamp; ramp clamps its target BEFORE interpolating) and durations >= 0 (C04_motor_partial: firmware events = host level signal event by event with duty = nearest "
              "PWM count, proved within 1/2 count of 255*|applied|; sleeps truncated, proved < 1 ms; getters equal; no host call raises). The former "
              "refutation (0 < |speed| < 1/510: host mode drive, device coast with all pins LOW) is repaired in Reduino and replaced by "
              "C04_motor_mode_follows_applied_speed and the unguarded simulation; its witness is replayed first on every run.")
@@ -59,6 +59,10 @@ def emit_case(b: Builder, cid, case):
 SPEEDS = [0, 1, -1, 0.5, -0.5, 0.25, 0.75, -0.75, 0.125, 1 / 256, -1 / 256, 1 / 64, 1.0, True, 1 / 1024, -1 / 1024, 1 / 512, 0.001]
 SPEEDS_OUT = [2, -2, 1.5, -1.25, 300, -300, 1.0009765625]
 DURS = [0, 1, 19, 20, 21, 50, 100, 2.5, 10.5]
+DURS_BAD = [-1, -2.5, -20]          # the host raises ValueError, the device clamps to 0: device-only stream
+# ramp towards a target outside -1..1: the host clamps the TARGET first and then interpolates its 20 steps; compared step by step
+RAMP_STARTS = [0, 0.25, 1, -1, -0.5, 0.75]
+RAMP_TARGETS_OUT = [2.0, -3.0, 1.5, -1.25, 2, -2, 300, 1.0009765625]
 
 
 def mk(ctx, v):
@@ -73,10 +77,11 @@ def random_op(ctx, out=False):
         return op(0, sp())
     if k == 1:
         return op(1, sp()) if r.random() < 0.7 else op(1)
+    du = lambda: mk(ctx, r.choice(DURS_BAD if out and r.random() < 0.12 else DURS))
     if k == 5:
-        return op(5, sp(), mk(ctx, r.choice(DURS)))
+        return op(5, sp(), du())
     if k == 6:
-        return op(6, mk(ctx, r.choice(DURS)), sp())
+        return op(6, du(), sp())
     return op(k)
 
 
@@ -93,6 +98,23 @@ def gen_cases(ctx):
     for inv in ([op(4)], []):
         for v in SPEEDS:
             cases.append({"pins": pins(), "ops": inv + [op(0, mk(ctx, v))] + getters + [op(4)] + getters, "family": "speed-grid"})
+    # out-of-range speeds are INSIDE the guard (the host clamps them; the device must do the same at the same point of the computation)
+    n = 0
+    for inv in ([], [op(4)]):
+        for st in RAMP_STARTS:
+            for tg in RAMP_TARGETS_OUT:
+                for rt in ((n % 2 == 0,) if quick else (False, True)):
+                    n += 1
+                    if quick and inv and n % 3:
+                        continue
+                    pre = inv + ([op(0, Arg(st, rt and n % 4 == 0))] if st != 0 else [])
+                    cases.append({"pins": pins(), "ops": pre + [op(5, Arg(tg, rt), Arg(ctx.rng.choice([0, 20, 100, 10.5]), rt and n % 3 == 0))] + getters,
+                                  "family": "ramp-target-out-of-range"})
+    for v in SPEEDS_OUT:
+        for rt in (False, True):
+            for o in (op(0, Arg(v, rt)), op(1, Arg(v, rt)), op(6, Arg(20), Arg(v, rt))):
+                cases.append({"pins": pins(), "ops": [o] + getters + [op(4)] + getters + [op(5, Arg(-v, rt), Arg(40))] + getters,
+                              "family": "speed-out-of-range"})
     for _ in range(120 if quick else 1200):
         cases.append({"pins": pins(), "ops": [random_op(ctx) for _ in range(ctx.rng.randint(2, 9))] + getters, "family": "random"})
     for _ in range(60 if quick else 500):
@@ -295,6 +317,7 @@ def run_unit(ctx: C.Ctx):
     recs, n_sketches = run_batch(ctx, cases)
     stats = {"cases": len(cases), "sketches": n_sketches, "streams": {}, "families": {}, "ops": {}, "arg_kinds": {"literal": 0, "run-time": 0},
              "fw_events": 0, "oracle_cases": 0, "clamp_cases": 0, "duty_off_by_one_vs_model": 0, "drive_changes": 0, "getter_prints": 0,
+             "oracle_cases_with_out_of_range_speed": 0, "oracle_ramps_with_out_of_range_target": 0,
              "drive_changes_with_pwm_0_while_driving_in_guard": 0,
              "fixed_witnesses_replayed_first": getattr(ctx, "c04_fixed_replayed", {}).get(UNIT)}
     if stats["fixed_witnesses_replayed_first"] is None:
@@ -363,6 +386,10 @@ def run_unit(ctx: C.Ctx):
             continue
         fseq, hseq = fw_seq(r["fw"]), host_items(r["host"])
         stats["oracle_cases"] += 1
+        oor = lambda a: abs(a.frac()) > 1
+        if any(oor(o["args"][{0: 0, 1: 0, 5: 0, 6: 1}[o["code"]]]) for o in c["ops"] if o["code"] in (0, 1, 5, 6) and o["args"]):
+            stats["oracle_cases_with_out_of_range_speed"] += 1
+        stats["oracle_ramps_with_out_of_range_target"] += sum(1 for o in c["ops"] if o["code"] == 5 and oor(o["args"][0]))
         stats["drive_changes"] += sum(1 for x in fseq if x[0] == "lvl")
         stats["drive_changes_with_pwm_0_while_driving_in_guard"] += sum(1 for x in hseq if x[0] == "lvl" and x[2] == "drive" and 0 < 255 * abs(x[1]) < Fraction(1, 2))
         if sum(1 for x in fseq if x[0] == "lvl") >= 2:
@@ -386,12 +413,16 @@ def run_unit(ctx: C.Ctx):
         "rule": "motor cases = command sequences on a fresh DCMotor followed by the four getters: ordered pairs over a boundary alphabet (speeds that are "
                 "dyadic rationals so that float32 and the exact model agree, durations 0/1/19/20/21/50/100/2.5/10.5), a speed grid with and without "
                 "invert (including speeds 1/1024, -1/1024, 1/512, 0.001 whose PWM count is 0 while the motor drives), seeded random sequences of 2-9 "
-                "commands, and a stream with speeds outside -1..1 (firmware + device model only). "
-                "A case is inside the guard iff the MODEL's motor_in_range holds for every command (speeds within -1..1, durations >= 0). The witness of "
+                "commands, a grid of ramps towards targets OUTSIDE -1..1 (2.0, -3.0, 1.5, -1.25, 2, -2, 300, 1+2^-10; literal and run-time) from six "
+                "start speeds with and without invert, set_speed / backward / run_for with out-of-range speeds followed by invert and a ramp, and a "
+                "random stream mixing in-range and out-of-range speeds (all of these INSIDE the guard: the 20 intermediate steps of every ramp are "
+                "compared with the host's, which clamps the target before interpolating) and negative durations (device only: the host raises). "
+                "A case is inside the guard iff the MODEL's motor_in_range holds for every command (speeds any number, durations >= 0). The witness of "
                 "the repaired finding is replayed before anything else. evaluations = in-guard cases through the oracle + cases through the clamp oracle.",
         "samples": [case_pub(c) for c in cases[:1] + cases[-1:]],
         "distribution": stats,
-        "guard": "speeds within -1..1 and durations >= 0 (the host clamps larger speeds as well; they are exercised in the device-only stream). No listed "
+        "guard": "speeds of any value (outside -1..1 the host clamps - for ramp before interpolating - and the device must produce the host's sequence) and "
+                 "durations >= 0 (negative durations: the host raises, the device clamps to 0; device-only stream). No listed "
                  "finding is excluded: F-C04-motor-tiny-speed-mode is repaired (kind fixed); speeds with 0 < |x| < 1/510 are generated and compared",
         "unmodelled": ["float32 arithmetic of the device (exact rationals; PWM duty compared within one count, which the statement allows)",
                        "numeric strings accepted by the host's float()", "negative durations (the host raises; the device clamps to 0)",
